@@ -469,6 +469,53 @@ func (it *flowAnalysis) structCopy(c *fctx, in ssa.Instruction, to, from *aval, 
 	return true
 }
 
+// structCopyQuiet copies cells from source addresses to destination addresses
+// without recording store events (building a value object from memory).
+func (it *flowAnalysis) structCopyQuiet(from, to *aval) {
+	for _, s := range targets(from) {
+		bar := it.barrier != nil && it.barrier(s.o)
+		for k, cl := range s.o.cells {
+			var sub string
+			switch {
+			case s.k == "" && k != "":
+				sub = k
+			case s.k != "" && strings.HasPrefix(k, s.k+"."):
+				sub = k[len(s.k)+1:]
+			case k == s.k:
+				sub = ""
+			default:
+				continue
+			}
+			for _, d := range targets(to) {
+				dk := sub
+				if d.k != "" {
+					if sub == "" {
+						dk = d.k
+					} else {
+						dk = d.k + "." + sub
+					}
+				}
+				dc := d.o.cell(dk)
+				for l := range cl.labels {
+					if bar && barrierLabel(l) {
+						continue
+					}
+					if !dc.labels[l] {
+						dc.labels[l] = true
+						it.changed = true
+					}
+				}
+				for p := range cl.pts {
+					if !dc.pts[p] {
+						dc.pts[p] = true
+						it.changed = true
+					}
+				}
+			}
+		}
+	}
+}
+
 func (it *flowAnalysis) context(fn *ssa.Function, key string, depth int) *fctx {
 	k := key + "|" + fn.String()
 	c := it.ctxs[k]
@@ -642,7 +689,35 @@ func (it *flowAnalysis) step(c *fctx, b *ssa.BasicBlock, instr ssa.Instruction, 
 		it.addLabels(a, filter(x.labels, in.Type()))
 		it.addLabels(a, stripKB(c.get(it, in.Index).labels))
 	case *ssa.Field:
-		it.merge(c.get(it, in), c.get(it, in.X))
+		x := c.get(it, in.X)
+		hasVO := false
+		for o := range x.pts {
+			if o.kind == "sval" {
+				hasVO = true
+			}
+		}
+		if hasVO {
+			a := c.get(it, in)
+			st, _ := in.X.Type().Underlying().(*types.Struct)
+			fname := st.Field(in.Field).Name()
+			from := newAval()
+			for o := range x.pts {
+				if o.kind == "sval" {
+					from.addrs[faddr{o, fname}] = true
+				}
+			}
+			if _, isStruct := in.Type().Underlying().(*types.Struct); isStruct {
+				vo := it.obj(fmt.Sprintf("sval:%s@%s#%s", in.Name(), it.p.Pos(in.Pos()), shortKey(c.key)), "sval", in.Type(), in.Pos(), c.key)
+				to := newAval()
+				to.addrs[faddr{vo, ""}] = true
+				it.structCopyQuiet(from, to)
+				it.addPts(a, vo)
+			} else {
+				it.load(a, from, in.Type())
+			}
+			break
+		}
+		it.merge(c.get(it, in), x)
 	case *ssa.Slice:
 		a := c.get(it, in)
 		x := c.get(it, in.X)
@@ -662,6 +737,17 @@ func (it *flowAnalysis) step(c *fctx, b *ssa.BasicBlock, instr ssa.Instruction, 
 		a := c.get(it, in)
 		x := c.get(it, in.X)
 		if in.Op == token.MUL {
+			if _, isStruct := in.Type().Underlying().(*types.Struct); isStruct && len(targets(x)) > 0 {
+				// a struct VALUE is represented by a value object with the same cells, so that
+				// passing, returning and storing it keeps the fields apart
+				vo := it.obj(fmt.Sprintf("sval:%s@%s#%s", in.Name(), it.p.Pos(in.Pos()), shortKey(c.key)), "sval", in.Type(), in.Pos(), c.key)
+				to := newAval()
+				to.addrs[faddr{vo, ""}] = true
+				it.structCopyQuiet(x, to)
+				it.addPts(a, vo)
+				it.addLabels(a, stripKB(x.labels))
+				break
+			}
 			it.load(a, x, in.Type())
 			if name, ok := it.optLabel(in); ok {
 				it.addLabels(a, lset{name: true})
@@ -748,12 +834,17 @@ func (it *flowAnalysis) step(c *fctx, b *ssa.BasicBlock, instr ssa.Instruction, 
 		}
 		it.addLabels(a, x.labels)
 	case *ssa.Store:
-		// whole-struct copy: keep the fields apart
-		if ld, ok := in.Val.(*ssa.UnOp); ok && ld.Op == token.MUL {
-			if _, isStruct := ld.Type().Underlying().(*types.Struct); isStruct {
-				if it.structCopy(c, in, c.get(it, in.Addr), c.get(it, ld.X), stripKB(ctl)) {
-					break
+		// whole-struct copy: keep the fields apart (the value is represented by value objects)
+		if _, isStruct := in.Val.Type().Underlying().(*types.Struct); isStruct {
+			v := c.get(it, in.Val)
+			src := newAval()
+			for o := range v.pts {
+				if o.kind == "sval" {
+					src.addrs[faddr{o, ""}] = true
 				}
+			}
+			if len(src.addrs) > 0 && it.structCopy(c, in, c.get(it, in.Addr), src, stripKB(ctl)) {
+				break
 			}
 		}
 		it.store(c, in, c.get(it, in.Addr), c.get(it, in.Val), stripKB(ctl))
